@@ -108,8 +108,22 @@ fn zero_rich() -> impl Strategy<Value = Expr> {
     })
 }
 
+/// Trees whose leaves sit next to machine-word boundaries (2^k + j, 10^k + j, point moved, small exponent).
+fn word_boundary() -> impl Strategy<Value = Expr> {
+    let leaf = prop_oneof![
+        4 => gen::word_boundary_lit().prop_map(Expr::Num),
+        1 => gen::small_lit().prop_map(Expr::Num),
+    ];
+    leaf.prop_recursive(3, 10, 2, |inner| {
+        prop_oneof![
+            6 => (gen::op(), inner.clone(), inner.clone()).prop_map(|(o, a, b)| Expr::bin(o, a, b)),
+            1 => (inner.clone(), -3i32..=3).prop_map(|(a, n)| Expr::Pow(Box::new(a), n)),
+        ]
+    })
+}
+
 pub fn run(ctx: &Ctx) {
-    ctx.set_rule("expression trees over decimal literals with + - * / ^ and parentheses, canonical layout, compared with an independent exact evaluator; non-trivial = >=2 distinct operator kinds, or a parenthesised right operand, or a zero/negative power, or a literal longer than 20 characters, or a division-by-zero case; distinct by query text");
+    ctx.set_rule("expression trees over decimal literals (small, 60-300 digits, zero-rich, and values next to machine-word boundaries 2^k + j / 10^k + j) with + - * / ^ and parentheses, canonical layout, compared with an independent exact evaluator; non-trivial = >=2 distinct operator kinds, or a parenthesised right operand, or a zero/negative power, or a literal longer than 20 characters, or a division-by-zero case; distinct by query text");
     ctx.assume("exponents are integer literals or parenthesised integer-valued expressions by construction; product of |exponents| along a path is capped (size guard)");
     let corpus: Vec<(String, QCase)> = load_corpus("C01");
     let cases: Vec<QCase> = corpus.into_iter().map(|c| c.1).collect();
@@ -121,6 +135,7 @@ pub fn run(ctx: &Ctx) {
     let big = TreeCfg { depth: 4, size: 16, max_pow: 3, pow_weight_cap: 9, lit: ctx.tier.pick(LitCfg::BIG, LitCfg { max_int_digits: 300, max_frac_digits: 100, max_exp: 300, ..LitCfg::BIG }), calls: false };
     ctx.run_gen("big-literals", || gen::num_expr(big), n / 4, check, case_json);
     ctx.run_gen("zero-rich", zero_rich, n / 4, check, case_json);
+    ctx.run_gen("word-boundary", word_boundary, n / 8, check, case_json);
 }
 
 pub fn replay(ctx: &Ctx, case: &Value) {
